@@ -32,6 +32,8 @@ import (
 	"github.com/golang-jwt/jwt/v5"
 
 	"github.com/tucats/ego/internal/caches"
+	"github.com/tucats/ego/internal/cli/settings"
+	"github.com/tucats/ego/internal/defs"
 	"github.com/tucats/ego/internal/language/tokens"
 	"github.com/tucats/ego/internal/verifsim/sim"
 	"github.com/tucats/ego/internal/verifsim/simrun"
@@ -77,6 +79,7 @@ type c22IdP struct {
 	failed      int
 	clock       int64           // counts mints and successful JWKS deliveries (orders them)
 	gone        map[int64]int64 // key -> clock value of a JWKS document delivered WITHOUT it since its withdrawal, see settle
+	discoveries int             // discovery documents served
 	delivered   int             // successful JWKS deliveries
 	lastLacking []int64         // keys missing from the latest delivered document
 	lastClock   int64           // clock value of that delivery
@@ -107,7 +110,10 @@ func (p *c22IdP) RoundTrip(req *http.Request) (*http.Response, error) {
 	sim.Yield("net")
 	p.mu.Lock()
 	down, slow := p.down, p.slow
-	p.fetches++
+	isJWKS := strings.HasSuffix(req.URL.Path, "/jwks")
+	if isJWKS {
+		p.fetches++
+	}
 	body := p.jwks()
 	var lacking []int64
 	for _, k := range []int64{0, 1, 3} {
@@ -132,7 +138,14 @@ func (p *c22IdP) RoundTrip(req *http.Request) (*http.Response, error) {
 			return nil, req.Context().Err()
 		}
 	}
-	if !strings.HasSuffix(req.URL.Path, "/jwks") {
+	if strings.HasSuffix(req.URL.Path, "/.well-known/openid-configuration") {
+		p.mu.Lock()
+		p.discoveries++
+		p.mu.Unlock()
+		doc := fmt.Sprintf(`{"issuer":%q,"jwks_uri":%q,"token_endpoint":%q,"authorization_endpoint":%q}`, c22Issuer, c22Issuer+"/jwks", c22Issuer+"/token", c22Issuer+"/authorize")
+		return &http.Response{StatusCode: 200, Body: io.NopCloser(strings.NewReader(doc)), Header: http.Header{"Content-Type": []string{"application/json"}}, Request: req}, nil
+	}
+	if !isJWKS {
 		return &http.Response{StatusCode: 404, Body: io.NopCloser(bytes.NewReader(nil)), Header: http.Header{}, Request: req}, nil
 	}
 	p.mu.Lock()
@@ -235,6 +248,7 @@ func (c22Engine) Generate(seed uint64, tier string) *simrun.Case {
 	c := &simrun.Case{Prop: "C22", Engine: "jwt-hist", Seed: seed, SchedSeed: sim.Mix(seed, 22), Knobs: map[string]int64{}}
 	c.Knobs["ttl"] = []int64{300, 3600}[r.Intn(2)]
 	c.Knobs["clients"] = int64(1 + r.Intn(2))
+	c.Knobs["discovery"] = int64(r.Intn(2)) // 1: the server is configured through settings and the real oauth.Initialize (OIDC discovery, initial key-set load)
 	c.Knobs["preempt_num"], c.Knobs["preempt_den"] = 1, []int64{1, 3, 8}[r.Intn(3)]
 	pick := func(good int, n int) int64 { // mostly the good value
 		if r.Chance(good, 10) {
@@ -333,12 +347,34 @@ func (c22Engine) Execute(t *testing.T, c *simrun.Case, keepLog bool) *simrun.Out
 		resetJWKSCache()
 		resetMissRefresh()
 		ttl := time.Duration(c.Knob("ttl", 3600)) * time.Second
-		globalConfig = rsConfig{Provider: c22Issuer, Audience: c22Audience, UserClaim: "sub", PermissionClaim: "scope", JWKSCacheTTL: ttl, Mode: "jwt"}
-		jwksURL = c22Issuer + "/jwks"
-		setJWKSCacheTTL(ttl)
-		caches.SetExpiration(caches.OAuthJWTCache, fmt.Sprintf("%.0fs", ttl.Seconds()))
 		http.DefaultTransport = idp
 		idpClient.Transport = nil
+		if c.Knob("discovery", 0) == 1 {
+			// the real start-up path: configuration from settings, OIDC discovery, initial key-set load
+			settings.SetDefault(defs.OAuthProviderSetting, c22Issuer)
+			settings.SetDefault(defs.OAuthAudienceSetting, c22Audience)
+			settings.SetDefault(defs.OAuthJWKSCacheTTLSetting, fmt.Sprintf("%.0fs", ttl.Seconds()))
+			settings.SetDefault(defs.OAuthUserClaimSetting, "sub")
+			settings.SetDefault(defs.OAuthPermissionClaimSetting, "scope")
+			globalConfigOnce = sync.Once{}
+			discoveryCache.mu = sync.RWMutex{}
+			resetDiscoveryCache()
+			jwksURL = ""
+			if err := Initialize(); err != nil {
+				setupErr = fmt.Errorf("oauth.Initialize: %v", err)
+				return
+			}
+			if jwksURL != c22Issuer+"/jwks" {
+				setupErr = fmt.Errorf("oauth.Initialize: key-set URL is %q after discovery", jwksURL)
+				return
+			}
+			out.Probe("initialized_through_discovery", 1)
+		} else {
+			globalConfig = rsConfig{Provider: c22Issuer, Audience: c22Audience, UserClaim: "sub", PermissionClaim: "scope", JWKSCacheTTL: ttl, Mode: "jwt"}
+			jwksURL = c22Issuer + "/jwks"
+			setJWKSCacheTTL(ttl)
+			caches.SetExpiration(caches.OAuthJWTCache, fmt.Sprintf("%.0fs", ttl.Seconds()))
+		}
 		if err := tokens.SetDatabasePath("sqlite3://" + filepath.Join(dir, "blacklist.db")); err != nil {
 			setupErr = err
 			return
